@@ -282,6 +282,25 @@ func (g *Gen) exp(d int) {
 	case 2, 3:
 		g.emit(g.someVar())
 	case 4, 5:
+		if g.r.Chance(1, 5) {
+			// a flat chain of three or four simple operands under one operator (a..b..c, x+y+z, p and q or r)
+			op := g.r.Pick([]string{"..", "..", "+", "and", "or"})
+			n := g.r.Range(3, 4)
+			for i := 0; i < n; i++ {
+				if i > 0 {
+					g.emit(op)
+				}
+				switch g.r.Intn(4) {
+				case 0:
+					g.emit(g.literal())
+				case 1:
+					g.prefixexp(d-1, true)
+				default:
+					g.emit(g.someVar())
+				}
+			}
+			break
+		}
 		g.exp(d - 1)
 		ops := binops53
 		if g.cfg.Ops54 && g.r.Chance(1, 3) {
@@ -609,6 +628,40 @@ func (g *Gen) stat() {
 			}
 		}
 	case k < 8: // assignment
+		if g.r.Chance(1, 6) {
+			// a table with known members, then a multiple assignment that re-assigns those members with one value fewer
+			// than targets (the last value, typically a call, is expected to fill the rest)
+			tk := g.fresh("kt")
+			keys := []string{g.r.Pick(memberPool), g.r.Pick(memberPool)}
+			g.emit("local", tk, "=", "{", keys[0], "=")
+			g.exp(1)
+			if keys[1] != keys[0] {
+				g.emit(",", keys[1], "=")
+				g.exp(1)
+			}
+			g.emit("}", NL)
+			g.declare(tk)
+			nt := g.r.Range(2, 3)
+			lead := g.r.Bool()
+			for i := 0; i < nt; i++ {
+				if i > 0 {
+					g.emit(",")
+				}
+				if i == 0 && lead {
+					g.emit(g.assignable())
+				} else {
+					g.emit(tk, ".", keys[g.r.Intn(2)])
+				}
+			}
+			g.emit("=")
+			for i := 0; i < nt-1; i++ {
+				if i > 0 {
+					g.emit(",")
+				}
+				g.exp(1)
+			}
+			break
+		}
 		n := g.r.Range(1, 3)
 		for i := 0; i < n; i++ {
 			if i > 0 {
